@@ -88,6 +88,17 @@ def run(ctx):
                         "partial_members": [(h, pos) for _t, h, pos in partials],
                         "operation_name": op.name if op is not None else None}
                 configs = exec_mon.CONFIGS if cls == "executed" else rng.sample(exec_mon.CONFIGS, 3)
+                # a quarter of the parseable requests arrive as Document objects: no parsing stage then
+                request = text
+                if cls != "syntax" and rng.random() < 0.25:
+                    try:
+                        from py_gql.lang import parse
+
+                        request = parse(text)
+                        base["pre_parsed_document"] = True
+                    except Exception:
+                        request = text
+                expected_stages = [st for st in EXPECTED_STAGES[cls] if st != "parsing" or request is text]
                 for config in configs:
                     def extra():
                         return {"instrumentation": instr_mon.make_instrumentations(log, n_instr, partials),
@@ -95,7 +106,7 @@ def run(ctx):
 
                     def run_with(ch, config=config, eager=False):
                         log.events = []
-                        return exec_mon.run_request(config, case, text, op, variables, ch, extra, eager=eager)
+                        return exec_mon.run_request(config, case, request, op, variables, ch, extra, eager=eager)
 
                     seen = set()
                     for schedule, (out, trace), exh in exec_mon.schedules(config, rng, run_with, max_exh, n_samples,
@@ -125,7 +136,13 @@ def run(ctx):
                         for e in events:
                             if e["ev"] == "stage" and e["tag"] == 0 and e["edge"] == "start":
                                 stages.append(e["stage"])
-                        if stages != EXPECTED_STAGES[cls]:
+                        if request is not text:
+                            ctx.count("runs_with_pre_parsed_document")
+                            if any(e["ev"] == "stage" and e["stage"] == "parsing" for e in events):
+                                # not demanded by the statement (pairs must match, whatever fires)
+                                ctx.observe("parsing hooks fired for a pre-parsed document")
+                                expected_stages = EXPECTED_STAGES[cls]
+                        if stages != expected_stages:
                             # the request may legitimately fail earlier than planned (e.g. a truncated
                             # text that still parses): only a *wrong shape* for the observed outcome counts
                             res = out[3]
